@@ -97,6 +97,34 @@ theorem popLoopRes_ok {r : Res} {st' o} (h : popLoopRes r = .ok (st', o)) :
   · cases h
   · cases h; exact ⟨_, rfl, rfl⟩
 
+theorem popCatchRes_ok {r : Res} {st' o} (h : popCatchRes r = .ok (st', o)) :
+    ∃ st1, r = .ok (st1, o) ∧ st' = { st1 with pushed := st1.pushed.tail, stopped := false } := by
+  unfold popCatchRes at h
+  split at h
+  · cases h
+  · cases h; exact ⟨_, rfl, rfl⟩
+
+theorem extendsRes_ok {r : Res} {st' o} (h : extendsRes r = .ok (st', o)) :
+    ∃ st1, r = .ok (st1, o) ∧ st' = { st1 with pushed := st1.pushed.tail, stacks := [], stopped := true } := by
+  unfold extendsRes at h
+  split at h
+  · cases h
+  · cases h; exact ⟨_, rfl, rfl⟩
+
+theorem rowRes_ok {r : Res} {st' o} (h : rowRes r = .ok (st', o)) :
+    ∃ st1 o1, r = .ok (st1, o1) ∧ st' = { st1 with pushed := st1.pushed.tail } := by
+  unfold rowRes at h
+  split at h
+  · cases h
+  · cases h; exact ⟨_, _, rfl, rfl⟩
+
+theorem keepStopRes_ok {st : St} {r : Res} {st' o} (h : keepStopRes st r = .ok (st', o)) :
+    ∃ st1, r = .ok (st1, o) ∧ st' = { st with stopped := st1.stopped } := by
+  unfold keepStopRes at h
+  split at h
+  · cases h
+  · cases h; exact ⟨_, rfl, rfl⟩
+
 theorem keepRes_ok {st : St} {r : Res} {st' o} (h : keepRes st r = .ok (st', o)) :
     st' = st ∧ ∃ st1, r = .ok (st1, o) := by
   unfold keepRes at h
@@ -140,12 +168,43 @@ theorem bal_keep {st : St} {r : Res} : Bal st (keepRes st r) := by
   obtain ⟨a, _⟩ := keepRes_ok hr
   subst a; exact ⟨rfl, rfl⟩
 
+
+theorem bal_popCatch {st st1 : St} {r : Res} (hp : st1.pushed.tail = st.pushed) (hl : st1.loops = st.loops)
+    (h : BalI st1 r) : Bal st (popCatchRes r) := by
+  intro st' o hr
+  obtain ⟨s1, h1, h2⟩ := popCatchRes_ok hr
+  obtain ⟨a, b⟩ := h s1 o h1
+  subst h2
+  exact ⟨by simp only [a, hp], by simp only [b, hl]⟩
+
+theorem bal_extends {st st1 : St} {r : Res} (hp : st1.pushed.tail = st.pushed) (hl : st1.loops = st.loops)
+    (h : BalI st1 r) : Bal st (extendsRes r) := by
+  intro st' o hr
+  obtain ⟨s1, h1, h2⟩ := extendsRes_ok hr
+  obtain ⟨a, b⟩ := h s1 o h1
+  subst h2
+  exact ⟨by simp only [a, hp], by simp only [b, hl]⟩
+
+theorem bal_row {st st1 : St} {r : Res} (hp : st1.pushed.tail = st.pushed) (hl : st1.loops = st.loops)
+    (h : BalI st1 r) : Bal st (rowRes r) := by
+  intro st' o hr
+  obtain ⟨s1, o1, h1, h2⟩ := rowRes_ok hr
+  obtain ⟨a, b⟩ := h s1 o1 h1
+  subst h2
+  exact ⟨by simp only [a, hp], by simp only [b, hl]⟩
+
+theorem bal_keepStop {st : St} {r : Res} : Bal st (keepStopRes st r) := by
+  intro st' o hr
+  obtain ⟨s1, _, h2⟩ := keepStopRes_ok hr
+  subst h2; exact ⟨rfl, rfl⟩
+
 theorem balanced_aux (E : Env) :
     (∀ G st n, Bal st (render E G st n)) ∧
     (∀ G st key n args pg i items body, True ∨ iterRen E G st key n args pg i items body = .error .undefined) ∧
     (∀ G st body, Bal st (renderPartial E G st body)) ∧
     (∀ G st ns, Bal st (renderList E G st ns)) ∧
     (∀ G st key items body, BalI st (iterInc E G st key items body)) ∧
+    (∀ G st var n i items body, BalI st (iterRow E G st var n i items body)) ∧
     (∀ G st var label n parent i items body, BalT st (iterFor E G st var label n parent i items body)) := by
   apply render.mutual_induct E
     (motive1 := fun G st n => Bal st (render E G st n))
@@ -153,35 +212,52 @@ theorem balanced_aux (E : Env) :
     (motive3 := fun G st body => Bal st (renderPartial E G st body))
     (motive4 := fun G st ns => Bal st (renderList E G st ns))
     (motive5 := fun G st key items body => BalI st (iterInc E G st key items body))
-    (motive6 := fun G st var label n parent i items body => BalT st (iterFor E G st var label n parent i items body))
+    (motive6 := fun G st var n i items body => BalI st (iterRow E G st var n i items body))
+    (motive7 := fun G st var label n parent i items body => BalT st (iterFor E G st var label n parent i items body))
   all_goals try (intros; exact Or.inl trivial)
-  all_goals try (intros; simp_all [Bal, BalT, BalI, render, renderList, renderPartial, iterFor, iterInc]; done)
-  case case11 =>
-    intro G st c body els r hx h1 h2 ih
-    simp only [render, hx, h1, h2]; exact ih
+  all_goals try (intros; simp_all [Bal, BalT, BalI, render, renderList, renderPartial, iterFor, iterInc, iterRow]; done)
   case case12 =>
     intro G st c body els r hx h1 h2 ih
     simp only [render, hx, h1, h2]; exact ih
-  case case15 =>
-    intro G st var label it body els r hx h1 items h2 ih
-    simp only [render, hx, h1]; simp only [items] at h2; simp only [h2]; exact ih
+  case case13 =>
+    intro G st c body els r hx h1 h2 ih
+    simp only [render, hx, h1, h2]; exact ih
   case case16 =>
-    intro G st var label it body els r hx h1 items h2 h3
-    simp only [render, hx, h1]; simp only [items] at h2; simp only [h2, h3]
-    intro st' o h; simp at h
+    intro G st var label it body els r hx h1 h2 ih
+    simp only [render, hx, h1]; simp only [h2]; exact ih
   case case17 =>
-    intro G st var label it body els r hx h1 items h2 parent h3 st1 ih
-    simp only [render, hx, h1]; simp only [items] at h2; simp only [h2, h3]
+    intro G st var label it body els r hx h1 h2 h3
+    simp only [render, hx, h1]; simp only [h2, h3]
+    intro st' o h; simp at h
+  case case18 =>
+    intro G st var label it body els r hx h1 h2 h3 h4
+    simp only [render, hx, h1]; simp only [h2, h3, h4]
+    intro st' o h; simp at h
+  case case19 =>
+    intro G st var label it body els r hx h1 h2 h3 h4 ih
+    simp only [render, hx, h1]; simp only [h2, h3, h4]
     exact bal_popLoop rfl rfl ih
-  case case20 =>
-    intro G st args body ns hx h ih
-    simp only [render, hx, h]
+  case case22 =>
+    intro G st var it body r hx h1 h2
+    simp only [render, hx, h1]; simp only [h2]
+    intro st' o h; simp at h
+  case case23 =>
+    intro G st var it body r hx h1 h2 h3
+    simp only [render, hx, h1]; simp only [h2, h3]
+    intro st' o h; simp at h
+  case case24 =>
+    intro G st var it body r hx h1 h2 h3 ih
+    simp only [render, hx, h1]; simp only [h2, h3]
+    exact bal_row (st1 := { st with pushed := [("tablerowloop", rowDrop (iterItems E.cfg r).length 0)] :: st.pushed }) rfl rfl ih
+  case case28 =>
+    intro G st args body ns hx h0 h ih
+    simp only [render, hx, h0, h]
     exact bal_pop (st1 := { st with pushed := dictOf ns :: st.pushed }) rfl rfl (bal_balI ih)
-  case case27 =>
-    intro G st name bind args h1 body hl ns hx h G1 st1 ih
+  case case36 =>
+    intro G st name bind args h1 body hl ns hx h0 h ih
     have h1' : G.noInclude = false := by simpa using h1
-    simp only [G1, st1, h1'] at ih
-    simp only [render, h1', hl, hx, h, Bool.false_eq_true, if_false]
+    simp only [h1'] at ih
+    simp only [render, h1', hl, hx, h0, h, Bool.false_eq_true, if_false]
     apply bal_pop (st1 := { st with pushed := dictOf ns :: st.pushed }) rfl rfl
     cases bind with
     | none => exact bal_balI ih
@@ -197,34 +273,33 @@ theorem balanced_aux (E : Env) :
           · intro st' o hh
             obtain ⟨a, b⟩ := ih.2 _ st' o hh
             exact ⟨by simp only [a, List.tail_cons], by simp only [b]⟩
-  case case31 =>
+  case case40 =>
     intro G st name bind args body hl ns hx h ih
     simp only [render, hl, hx, h]
     exact bal_keep
-  case case37 =>
+  case case46 =>
     intro G st name pos kw m hm ns hx h ih
     simp only [render, hm, hx, h]
-    exact bal_keep
-  case case43 =>
-    intro G st body h ih
-    rw [renderPartial]; simp only [h]
-    exact bal_pop (st1 := { st with pushed := [("partial", .bool true)] :: st.pushed }) rfl rfl (bal_balI ih)
-  case case53 =>
-    intro G st var label n parent i itm rest body drop x hx ih
-    rw [iterFor]; simp only [drop] at hx; simp only [hx]
-    intro st' o hh; cases hh
-  case case54 =>
-    intro G st var label n parent i itm rest body drop st1 o1 hx x hx2 ih2 ih1
-    rw [iterFor]; simp only [drop] at hx; simp only [hx, hx2]
-    intro st' o hh; cases hh
-  case case55 =>
-    intro G st var label n parent i itm rest body drop st1 o1 hx st2 o2 hx2 ih2 ih1
-    rw [iterFor]; simp only [drop] at hx ih2; simp only [hx, hx2]
-    intro st' o hh
-    simp only [Except.ok.injEq, Prod.mk.injEq] at hh
-    obtain ⟨a, b⟩ := ih1 st2 o2 hx2
-    obtain ⟨c, d⟩ := ih2 st1 o1 hx
-    rw [← hh.1]
-    exact ⟨by simp only [a, c, List.tail_cons], by simp only [b, d, List.tail_cons]⟩
+    exact bal_keepStop
+  case case48 =>
+    intro G st name body item tail hx h ih
+    simp only [render, hx, h]
+    exact bal_keepStop
+  case case51 =>
+    intro G st name body h1 h2 hx ih
+    simp only [render]
+    split
+    · rename_i hb; exact absurd hb h1
+    · first
+      | exact bal_pop (st1 := { st with pushed := [("block", Val.drop)] :: st.pushed }) rfl rfl (bal_balI ih)
+      | (simp only [h2]; exact bal_pop (st1 := { st with pushed := [("block", Val.drop)] :: st.pushed }) rfl rfl (bal_balI ih))
+  case case57 =>
+    intro G st name nm stk hx base stk' hc h1 h2 ih
+    simp only [render, hx, hc, h1, h2]
+    exact bal_extends (st1 := { st with stacks := stk', pushed := [("partial", Val.bool false)] :: st.pushed }) rfl rfl (bal_balI ih)
+  case case64 =>
+    intro G st body h1 h2 ih
+    rw [renderPartial]; simp only [h1, h2]
+    exact bal_popCatch (st1 := { st with pushed := [("partial", .bool true)] :: st.pushed }) rfl rfl (bal_balI ih)
 
 end LiquidVerif.Scope
